@@ -23,6 +23,9 @@
              "atermC"    guided schedule: the upstream is silent, the global timeout (150 ms) fires and its callback is
                          held right after it won the response CAS (gate ds.gtimer.cas) while TerminateStream is called:
                          it must be refused, the client gets the single timeout reply (504)
+             "atermD"    guided schedule: TerminateStream succeeds while the upstream is silent, the woken worker is held
+                         (gate ds.woken) until the upstream's late answer has arrived and been dropped, then it goes on:
+                         the client gets the termination reply (598), unaffected by the dropped answer
    verdicts of a receive filter (chosen by TLC per invocation = the verdict script of the filter):
              c continue | s stop | t termination | hs hijack+stop | hc hijack+continue | d direct response+stop |
              ts TerminateStream then stop | ac TerminateStream from another goroutine, then continue |
@@ -94,7 +97,7 @@ Settle(ch, p, c) == IF p = "F" THEN [ph |-> "F", cur |-> 1]
                     ELSE Settle(ch, Succ(p), 1)
 
 Init == /\ chain \in Chains /\ env \in Envs /\ real = [slot |-> 0, code |-> 0]
-        /\ env \in {"aterm", "atermA", "atermB", "atermC"} => \E i \in DOMAIN chain : chain[i] \in RecvKinds
+        /\ env \in {"aterm", "atermA", "atermB", "atermC", "atermD"} => \E i \in DOMAIN chain : chain[i] \in RecvKinds
         /\ LET s == Settle(chain, "B", 1) IN ph = s.ph /\ cur = s.cur
         /\ scur = 1 /\ again = "none" /\ direct = 0 /\ pend = [code |-> 0, local |-> FALSE] /\ hostChosen = FALSE
         /\ log = <<>> /\ pass = 1 /\ marks = {} /\ fwd = 0 /\ replies = 0 /\ reply = 0 /\ reentries = 0 /\ alt = FALSE
@@ -184,7 +187,7 @@ UpResp     == CanUpResp /\ Response([code |-> UpCode(env, fwd), local |-> FALSE]
 CanUpReset == ph = "W" /\ env \in {"close", "atermC"}
 UpReset    == CanUpReset /\ Response([code |-> ResetCode(env), local |-> TRUE])
 HasRecv    == \E i \in DOMAIN chain : chain[i] \in RecvKinds
-CanATerm   == ph = "W" /\ env \in {"aterm", "atermA"} /\ HasRecv
+CanATerm   == ph = "W" /\ env \in {"aterm", "atermA", "atermD"} /\ HasRecv
 ATerm      == CanATerm /\ Response([code |-> AsyncCode, local |-> TRUE])
 
 CanCallSend(i, v) == ph = "S" /\ i = NextIn(chain, "S", scur) /\ i # 0 /\ v \in SendVerdicts
